@@ -131,6 +131,8 @@ def check(ctx, case):
                 and abs(o["len"] - ref["len"]) <= 1e-9 * max(1, abs(ref["len"])) and U.num_same(o["area"], ref["area"], exact))
         if not same:
             fails.append(Fail(kind="O", what="constructor %s disagrees with %s" % (n, ref_name), impl={k2: str(v)[:200] for k2, v in o.items()}))
+        if k == "mixed" and exact:
+            continue        # == on curved segments with Fraction data: the Newton projection blows up (minutes); float stream covers it
         req = I.outcome(lambda: bool(objs[n] == objs[ref_name]))
         if req != ("ok", True):
             fails.append(Fail(kind="O", what="curves from %s and %s are not ==" % (n, ref_name), impl=req))
